@@ -77,6 +77,14 @@ def hdi_list_input_and_unchanged(h, n):
     out2 = hdi(s.copy(), f)
     h.eq("list input == array input", out, out2)
     h.eq("caller's list unchanged", np.array(lst, dtype=object if h.sym else float), s)
+    h.eq("tuple input == array input", hdi(tuple(s), f), out2)
+    if n >= 2:
+        nested = [[v, w] for v, w in zip(s, s[::-1])]   # 2-D input as a list of rows
+        o2 = np.asarray(hdi(nested, f))
+        h.same("nested list: one interval per column", o2.shape, (2, 2))
+        h.eq("nested list, column 0 == 1-D call", o2[:, 0], out2)
+        h.eq("nested list, column 1 == 1-D call on the reversed sample", o2[:, 1], hdi(s[::-1].copy(), f))
+        h.eq("caller's nested list unchanged", np.array(nested, dtype=object if h.sym else float), np.array([[v, w] for v, w in zip(s, s[::-1])], dtype=object if h.sym else float))
 
 
 @unit("C13", quick=[dict(n=2), dict(n=2, layout="F"), dict(n=2, layout="T"), dict(n=2, layout="strided")], thorough=[dict(n=3), dict(n=3, layout="F")],
